@@ -87,6 +87,16 @@ pub fn run_eta(ctx: &mut Ctx) {
             }
         }
     }
+    // FromIterator for Curve: arbitrary (also non-monotone) distance sequences are repaired to a monotone prefix
+    let nfi = if ctx.thorough { 1500 } else { 200 };
+    for _ in 0..nfi {
+        let l = ctx.rng.gen_range(1..=5);
+        let mut dm: Vec<u64> = (0..l).map(|_| ctx.rng.gen_range(0..=9)).collect();
+        if dm.iter().all(|x| *x == 0) {
+            dm[l - 1] = 3;
+        }
+        emit_eta(ctx, json!({"k": "citer", "d": dm}), cap);
+    }
     let n = if ctx.thorough { 6000 } else { 500 };
     let tm = if ctx.thorough { 40 } else { 14 };
     for i in 0..n {
